@@ -526,12 +526,17 @@ impl<'a> FieldParser<'a> {
             if trailing_size > 0 {
                 self.append(format!("if (span.size() < {}) return false;", trailing_size / 8));
                 let size = format!("span.size() - {}", trailing_size / 8);
-                self.append(format!("pdl::packet::slice {id}_span = span.subrange(0, {size});",));
+                // The field owns all the octets ahead of the trailing fields;
+                // Parse() advances {id}_span, its size must be taken before.
+                self.append(format!("size_t {id}_span_size = {size};"));
+                self.append(format!(
+                    "pdl::packet::slice {id}_span = span.subrange(0, {id}_span_size);",
+                ));
                 self.append(format!(
                     "if (!{type_id}::Parse({id}_span, &{}{id}_)) return false;",
                     self.target_prefix
                 ));
-                self.append(format!("span.skip({id}_span.size());"));
+                self.append(format!("span.skip({id}_span_size);"));
             } else {
                 self.append(format!(
                     "if (!{type_id}::Parse(span, &{}{id}_)) return false;",
